@@ -100,6 +100,85 @@ def handleRoll (o : Op) : String :=
       s!"ok body={toHex body}"
   | _, _, _, _, _, _, _ => "bad-op"
 
+def hexListB? (s : String) : Option (List Bytes) :=
+  if s == "-" then some [] else (s.splitOn ",").mapM ofHex
+
+def caBase : String := "https://ca.invalid/"
+
+/-- `api m=<method> key= kid= nonce= sig= …`: the request a public signing method sends.
+    The URL each method posts to (as the scripted directory / arguments name them): -/
+def apiURL (m : String) : Option String :=
+  if m == "register" || m == "getreg" then some "acct"
+  else if m == "updatereg" || m == "deactivate" then some "acct/1"          -- the account URL = key ID
+  else if m == "neworder" then some "order"
+  else if m == "getorder" || m == "waitorder" then some "order/1"
+  else if m == "fetchcert" || m == "alternates" then some "cert/1"
+  else if m == "getauthz" || m == "waitauthz" || m == "revokeauthz" then some "authz/1"
+  else if m == "getchal" || m == "accept" then some "chal/1"
+  else if m == "finalize" then some "fin/1"
+  else if m == "revoke" then some "revoke"
+  else if m == "authorize" || m == "authorizeip" then some "newauthz"
+  else none
+
+def apiReq? (o : Op) (m : String) : Option ApiReq :=
+  if m == "register" then do
+    let tos ← (o.get? "tos").bind fun s => if s == "1" then some true else if s == "0" then some false else none
+    let contact ← (o.get? "contact").bind hexListB?
+    let eab ← match o.get? "eab" with
+      | some "-" => some none
+      | some s => match s.splitOn ":" with
+        | [k, key] => do pure (some (← ofHex k, ← ofHex key))
+        | _ => none
+      | none => none
+    pure (.register tos contact eab)
+  else if m == "updatereg" then (o.get? "contact").bind hexListB? |>.map .updateReg
+  else if m == "getreg" then some .getReg
+  else if m == "deactivate" then some .deactivateReg
+  else if m == "neworder" then do
+    let ids ← match o.get? "ids" with
+      | some "-" => some []
+      | some s => (s.splitOn ",").mapM fun e => match e.splitOn ":" with
+        | [t, v] => do pure (← ofHex t, ← ofHex v)
+        | _ => none
+      | none => none
+    pure (.newOrder ids (← o.hex? "nb") (← o.hex? "na"))
+  else if m == "getorder" || m == "waitorder" || m == "fetchcert" || m == "alternates" || m == "getauthz"
+       || m == "waitauthz" || m == "getchal" then some .postAsGet
+  else if m == "finalize" then (o.hex? "csr").map .finalize
+  else if m == "revoke" then do pure (.revokeCert (← o.hex? "cert") (← o.nat? "reason"))
+  else if m == "accept" then (o.hex? "payload").map .accept
+  else if m == "revokeauthz" then some .revokeAuthz
+  else if m == "authorize" then (o.hex? "val").map (.authorize (asc "dns"))
+  else if m == "authorizeip" then (o.hex? "val").map (.authorize (asc "ip"))
+  else none
+
+def handleApi (o : Op) : String :=
+  let m := o.str "m"
+  match (o.get? "key").bind pub?, o.hex? "kid", o.hex? "nonce", (o.get? "sig").bind script?, apiURL m, apiReq? o m with
+  | some acct, some kid, some nonce, some sg, some url, some req =>
+    if !(printable kid && printable nonce) || kid.isEmpty || nonce.isEmpty then "bad-op" else
+    -- RevokeCert may be signed by the certificate's own key
+    let (signer, explicit) : Pub × Bool := match (o.get? "ckey").bind pub? with
+      | some ck => (ck, true)
+      | none => (acct, false)
+    let fullURL := asc (caBase ++ url)
+    match apiEncode acct signer explicit kid nonce fullURL (asc (caBase ++ "acct")) req sg with
+    | .err => "err"
+    | .panic => "panic"
+    | .ok _ hj payload _ sig =>
+      -- the payload is shown decoded ("-" for POST-as-GET)
+      let raw := match req with | .postAsGet => [] | _ => (b64Dec payload).getD []
+      s!"ok req={url} prot={toHex hj} payload={toHex raw} sig={toHex sig}"
+  | _, _, _, _, _, _ => "bad-op"
+
+/-- `chal key= token=`: the key authorizations derived from the thumbprint -/
+def handleChal (o : Op) : String :=
+  match (o.get? "key").bind pub?, o.hex? "token" with
+  | some p, some tok =>
+    if !printable tok then "bad-op" else
+    s!"ok http01={toHex (keyAuth p tok)} dns01={str (dns01Record p tok)} alpn={toHex (alpnDigest p tok)}"
+  | _, _ => "bad-op"
+
 def handleB64 (o : Op) : String :=
   match o.hex? "data" with
   | some d =>
@@ -117,6 +196,8 @@ def handle (line : String) : String :=
   else if o.cmd == "eab" then handleEab o
   else if o.cmd == "b64" then handleB64 o
   else if o.cmd == "roll" then handleRoll o
+  else if o.cmd == "api" then handleApi o
+  else if o.cmd == "chal" then handleChal o
   else "bad-op"
 
 end XC.C49
